@@ -33,7 +33,7 @@ func TestWorker(t *testing.T) {
 const epoch2024 = 1704067200
 
 var profilesFor = map[string][]string{
-	"C01": {"consensus"},
+	"C01": {"consensus", "consensus", "consensus", "consensus", "retarget", "votes"},
 	"C02": {"selection"},
 	"C03": {"utxo"},
 	"C04": {"crash"},
@@ -278,8 +278,49 @@ func run(r *simkit.Run) {
 		if prof == "utxo" || prof == "crash" {
 			wClone = 5
 		}
-		ev := simkit.Pick(c, "event", wMine, wDeliver, 4, 4, 3, 3, 4, 2, wInv, wInv, wHdr, wQry, wAri, wVote, wSub, wUns, wRem, wPM, wTm, wMin, wClone)
+		wBurst := 0
+		switch prof {
+		case "consensus", "selection", "utxo", "crash":
+			wBurst = 3
+		}
+		if cfg.Prune != 0 {
+			wBurst = 0 // (forks stay shallow on a pruned node)
+		}
+		ev := simkit.Pick(c, "event", wMine, wDeliver, 4, 4, 3, 3, 4, 2, wInv, wInv, wHdr, wQry, wAri, wVote, wSub, wUns, wRem, wPM, wTm, wMin, wClone, wBurst)
 		switch ev {
+		case 21:
+			// a branch that forks below the best block and overtakes it only
+			// with its last block: every block but the last is stored as a
+			// side-chain block and all of them are validated inside one
+			// reorganisation, against the branch's own ancestry
+			best := s.pickBest()
+			depth := simkit.Range(c, 1, 4, "burst-depth")
+			fork := best
+			for i := 0; i < depth && fork.Parent != nil; i++ {
+				fork = fork.Parent
+			}
+			n := int(best.Height-fork.Height) + 1
+			parent := fork
+			r.Probe("overtaking-branch")
+			for i := 0; i < n; i++ {
+				o := BlockOpts{NTx: c.Intn(maxTx+1, "ntx")}
+				if i >= 2 || i == n-1 {
+					if c.Bool(pMut, "mutant") {
+						o.Mut = invMuts[c.Intn(len(invMuts), "which-mut")]
+					} else if c.Bool(2*pLimit+100, "limit") {
+						o.Mut = limMuts[c.Intn(len(limMuts), "which-limit")]
+					}
+				}
+				b := w.Build(parent, o)
+				r.Event("mine", "%v on %v mut=%q class=%q txs=%d (overtaking branch %d/%d)", b, parent, b.Mut, b.Class, len(b.Txs), i+1, n)
+				s.pending = append(s.pending, b)
+				s.deliverWithClock(b)
+				s.CheckState("deliver")
+				if b.Class != ClsValid {
+					break
+				}
+				parent = b
+			}
 		case 20:
 			s.CloneCompare(c.Bool(500, "clone-flush-first"))
 		case 14: // submit a new transaction
@@ -624,17 +665,22 @@ func run(r *simkit.Run) {
 	r.Count("invalid_blocks_judged", s.judgedInv)
 }
 
-// pickParent chooses where the next block is mined.
-func (s *Sim) pickParent() *MBlock {
-	c := s.r.C
-	w := s.w
-	// best fully valid model block
-	best := w.Blocks[0]
-	for _, b := range w.Blocks {
+// pickBest is the best fully valid model block.
+func (s *Sim) pickBest() *MBlock {
+	best := s.w.Blocks[0]
+	for _, b := range s.w.Blocks {
 		if b.ChainValid() && b.Work.Cmp(best.Work) > 0 {
 			best = b
 		}
 	}
+	return best
+}
+
+// pickParent chooses where the next block is mined.
+func (s *Sim) pickParent() *MBlock {
+	c := s.r.C
+	w := s.w
+	best := s.pickBest()
 	// a pruned node only sees forks whose fork point is at most 3 blocks
 	// below the best block
 	shallow := func(b *MBlock) bool {
